@@ -25,7 +25,23 @@ FIX_COMMITS = ["d6ae502 (passive start-up cancellation: port/listener leak)",
                "e0f7c47 (control connection accepted just before Server.close() survived the close)",
                "1dce1fd (ABOR before the transfer worker's first step killed the session)",
                "d898b79 (MemoryPathIO listing skipped an entry when an earlier sibling was removed meanwhile)",
-               "0a8c063 (command sent before USER carried out in the new user's base directory)"]
+               "0a8c063 (command sent before USER carried out in the new user's base directory)",
+               "686c2aa (REST with thousands of digits ended the session without a reply)",
+               "3adc022 (restart offset survived an unsupported command)",
+               "a25681f (restart offset lost when the next pipelined command was dispatched first)",
+               "0ea6c59 (Client.list dropped MLSD lines without a name)",
+               "f682345 (line break inside a command / password sent through)",
+               "4962d4f (ABOR right behind a transfer command overtook it)",
+               "2775fad (data connection dropped by the peer ended the whole session)",
+               "96efe3c (cancelling Server.run() never finished while a session was open)",
+               "d96249a (Throttle forgave a rounded number of bytes at every reset)",
+               "027100e (ThrottleStreamIO.readexactly not throttled)",
+               "8509ed0 (non-reading peer kept the socket of a given-up connection)",
+               "54bbdb1 (finished transfer kept its data socket while the buffered tail was untaken)",
+               "d075526 (LIST lines with S / T mode characters made the listing fail)",
+               "253090b (Server.close() returned while a starting passive listener was open)",
+               "ca3f636 (home_path not normalised became the working directory)",
+               "d948632 (windows-flavour base: backslash / drive names were second virtual paths)"]
 
 # dimensions added after the fourth wave of seeded changes (plug-in APIs as part of the input space)
 EXTRA = {
@@ -34,12 +50,14 @@ EXTRA = {
         'a close() that suspends (read-back by another session explored right after the completion reply), '
         'and read() returning fewer bytes than asked for. The simulated transport keeps queued data by '
         'reference beyond a 0-2 byte kernel buffer (as asyncio does), so buffer re-use by a backend or stream '
-        'shows; one read() until EOF and client limits below the file size are client read styles.',
+        'shows; one read() until EOF and client limits below the file size are client read styles.'
+        ' REST, a transfer and one more command in one segment (memory, path checks waiting for executor jobs, AsyncPathIO; <= d order deviations): the transfer starts at the offset whatever follows it.',
     'C02':
         " Also: a pipelined CWD while the previous command's path checks are suspended in the backend (every "
         'completion order with <= d deviations): each mutating backend call must name a path for which the '
         'permission lookup was made. Names beginning with a blank are in the wire alphabet; an exception of '
-        'the path resolver is a violation.',
+        'the path resolver is a violation.'
+        " Every home_path setting (doubled slashes, '.', '..' detours): PWD, relative resolution and permission lookup right after login go by the normalised form. On every base the components of the real path below the base must be the components of the virtual path (one location, one virtual name - matters for Windows-flavour bases).",
     'C03':
         ' Also with a user manager whose get_user/authenticate/notify_logout really suspend: every pipelined '
         'burst of 2-3 login commands and probes from 5 pre-states under every completion order with <= d '
@@ -52,7 +70,8 @@ EXTRA = {
     'C05':
         ' Also every command of the alphabet on a server with path_timeout whose backend calls outlast it: '
         'exactly one final reply, session continues. Arguments with doubled leading slashes; a server that '
-        'waits for the data connection without limit.',
+        'waits for the data connection without limit.'
+        ' REST with thousands of digits; an unsupported verb between REST and the transfer.',
     'C06':
         ' The line alphabet includes the characters str.splitlines() treats as boundaries (VT, FF, GS, NEL, '
         'LS, lone CR). Every high byte of latin-1 / cp1251 alone, doubled and tripled; replies the server '
@@ -61,7 +80,8 @@ EXTRA = {
         ' Also: the k-th backend call of a listing fails (k=1..15, MLSD and LIST): a listing reported '
         'complete has every entry exactly once. A listing whose data connection arrives 10 s .. 1 h after the '
         'verb with an entry created in between; another session replacing files and directories between two '
-        'looks, on all three backends.',
+        'looks, on all three backends.'
+        ' Real directories whose entries carry every special mode bit with and without x (S, T, s, t) through MLSD, LIST and a LIST-only server.',
     'C08':
         ' Every high byte of the single-byte encodings (alone, doubled, after 0xFF); the bare relative name '
         'nested in itself and re-made after removal under another spelling or by another session.',
@@ -80,22 +100,26 @@ EXTRA = {
     'C12':
         ' Also on a speed-limited server and with a suspending user manager, with additional cuts placed '
         'before every advance of virtual time (the server sleeps in a throttle pause or a slow backend call); '
-        'the clock is frozen at the cut itself. server.close() while another client is connecting.',
+        'the clock is frozen at the cut itself. server.close() while another client is connecting.'
+        ' Shutdown by cancelling Server.run() (SimListener.serve_forever copies CPython 3.12.1: it waits for every accepted connection). Sockets and listeners are also sampled at the very moment close() returns; a closing socket that still waits for a non-reading peer to take buffered data counts as open.',
     'C13':
         ' A backend whose close() returns a value; a data connection opened before other commands must '
         'survive their failures.',
     'C14':
         ' Also on the executor-based backend (ABOR racing with file operations in flight). Also with a second '
         'data connection opened in advance for the next transfer just before the ABOR, and that transfer then '
-        'run without a new PASV.',
+        'run without a new PASV.'
+        ' The client dropping its data connection (close / reset) right before ABOR. An ABOR sent behind the verb is no longer allowed to overtake it. A closing data socket that waits for a non-reading peer counts as open.',
     'C15':
         ' Logins of the same account during the measured transfers; LIST and MLSD of a large directory as '
-        'throttled transfers.',
+        'throttled transfers.'
+        " Every public read path (read, readline, readexactly); reset periods below one byte's time (limit 100, reset 0.001/0.01, 1-byte blocks, all gap sequences to length 7/9) with start times compared to 1e-6 s - no per-operation rounding allowance.",
     'C16':
         ' Also with a user manager whose logout notification takes 5 s: the sockets must still be released at '
         'the bound; and sessions that end with QUIT (alone or pipelined behind other commands) from a peer '
         'that does not read. Throttle pauses longer than the timeouts (a peer that never stalls is never '
-        'dropped); a data peer that stops reading while the control connection is read.',
+        'dropped); a data peer that stops reading while the control connection is read.'
+        " Release means the socket is gone (connection_lost), not that close() was called: a closing transport that waits for a non-reading peer is still held. Downloads and listings whose tail stays in the transport's write buffer (SimNet with a kernel send buffer) while the data peer does not read.",
     'C17':
         " Every backend call on a session's own directory must come from the PathIO instance created for that "
         "session's Connection (custom backends read it). A limited user's session that dies awkwardly "
@@ -106,11 +130,13 @@ EXTRA = {
     'C19':
         " LIST lines that end before the file name are explicit cases (reported, not dropped as '.'). Parser "
         'termination: pumped token runs at every token boundary, each input in a child process with a '
-        'wall-clock budget.',
+        'wall-clock budget.'
+        ' MLSD lines without a pathname are reported, not dropped.',
     'C20':
         ' Also what follows an accepted login (work, re-login) alone and next to a second session of the same '
         'account that quits or vanishes. Non-ASCII spellings of PASS; a password check guarded by '
-        'aioftp.with_timeout that times out.',
+        'aioftp.with_timeout that times out.'
+        ' Passwords with CR/LF inside given to Client.login: no piece of them in any log.',
 }
 
 ENV_NOTE = ("Trusted base: the environment model (vf/simloop.py: selector, TCP, clock, executor) and the harness-side "
